@@ -41,13 +41,13 @@ pub fn dead_code_elimination(function: &il::Function) -> Result<il::Function, Er
             };
             let rpl = il::RefProgramLocation::new(function, rfl);
 
-            rd.get(&rpl.into())
-                .unwrap()
-                .locations()
-                .iter()
-                .for_each(|location| {
+            // A block which is unreachable from the entry has no reaching
+            // definitions.
+            if let Some(reaching) = rd.get(&rpl.into()) {
+                reaching.locations().iter().for_each(|location| {
                     live.insert(location.function_location().clone());
                 });
+            }
         });
 
     for block in function.blocks() {
@@ -58,9 +58,11 @@ pub fn dead_code_elimination(function: &il::Function) -> Result<il::Function, Er
                         function,
                         il::RefFunctionLocation::Instruction(block, instruction),
                     );
-                    rd[&rpl.into()].locations().iter().for_each(|location| {
-                        live.insert(location.function_location().clone());
-                    });
+                    if let Some(reaching) = rd.get(&rpl.into()) {
+                        reaching.locations().iter().for_each(|location| {
+                            live.insert(location.function_location().clone());
+                        });
+                    }
                 }
                 _ => {}
             }
@@ -71,7 +73,8 @@ pub fn dead_code_elimination(function: &il::Function) -> Result<il::Function, Er
 
     // Get every assignment with no uses, that isn't in live. Only assignments
     // and loads are candidates: an intrinsic has effects beyond the scalars
-    // it writes.
+    // it writes. Instructions which are unreachable from the entry have no
+    // def-use information and are left alone.
     let kill = function
         .locations()
         .into_iter()
@@ -82,7 +85,11 @@ pub fn dead_code_elimination(function: &il::Function) -> Result<il::Function, Er
                 .unwrap_or(false)
         })
         .filter(|location| !live.contains(&location.clone().into()))
-        .filter(|location| du[&location.clone().program_location(function).into()].is_empty())
+        .filter(|location| {
+            du.get(&location.clone().program_location(function).into())
+                .map(|uses| uses.is_empty())
+                .unwrap_or(false)
+        })
         .map(|l| l.into())
         .collect::<Vec<il::FunctionLocation>>();
 
